@@ -7,7 +7,7 @@
    not yet covered by a theorem are decided by the implementation <-> specification <->
    hardware differential run only (listed as unproved_forms in the evidence). *)
 From Coq Require Import ZArith Bool List.
-From AxV Require Import Bits Outcome Codes Iced State Rt Mem Trace Exec ExecP FrameTac FrameP ISA CodeSem IsaP.
+From AxV Require Import Bits Outcome Codes Iced State Rt Mem Trace Exec ExecP FrameTac FrameP ISA CodeSem IsaP ControlFlow TraceP CfP CfStepP.
 From AxG Require Import Flags Regs Operand Helpers Dispatch Frame.
 Local Open Scope Z_scope.
 
@@ -17,3 +17,21 @@ Print Assumptions cond_matches_sdm.
 Theorem C03_conditions : forall c rf,
   cond c rf = cond_sdm c (flag rf CF) (flag rf PF) (flag rf ZF) (flag rf SF) (flag rf OF).
 Proof. exact cond_matches_sdm. Qed.
+
+(* every relative jump, conditional jump, JRCXZ/JECXZ and call form, proved over the generated
+   Gallina of the 21 control-flow mnemonics: when the instruction completes, RIP is what the
+   ISA specification says (the branch operand when the specification's condition holds), and an
+   untaken branch leaves the whole machine state unchanged.  [pre] only asks for a well-formed
+   control-flow log with room for one more entry (C18).  Not covered here: the #GP on a
+   non-canonical target (known finding KF-C03-noncanonical-target), the return-address push of
+   CALL (C04), indirect targets (differential run). *)
+Theorem C03_relative_branches : forall c i sm s,
+  is_cf_mnemonic (i_mnemonic i) = true -> pre i s ->
+  code_sem (i_code i) = Some sm -> is_rel (Some sm) = true -> i_code i <> C_Jmp_rel8_16 ->
+  0 <= i_near_branch64 i < 2 ^ 64 ->
+  exists r s', switch_instruction_mnemonic c i s = (r, s') /\
+    (r = Ok tt -> forall s1 u, isa_exec sm i s = IDone s1 u -> regs s' RIP = regs s1 RIP) /\
+    (r = Ok tt -> taken (Some sm) s = false -> s' = s).
+Proof. exact rel_branch_refines_isa. Qed.
+
+Print Assumptions C03_relative_branches.
